@@ -6981,7 +6981,10 @@ impl<T: Deserialize + Packed> Deserialize for Vec<T> {
             if num_elems == 0 {
                 return Ok(Vec::new());
             }
-            let num_bytes = elem_size * num_elems;
+            // The number of items comes from the (possibly corrupt) input: must not overflow.
+            let Some(num_bytes) = elem_size.checked_mul(num_elems) else {
+                return Err(SavefileError::SizeOverflow);
+            };
 
             let layout = if let Ok(layout) = std::alloc::Layout::from_size_align(num_bytes, align) {
                 Ok(layout)
